@@ -35,6 +35,7 @@ def _case(draw, worlds, all_boundaries):
     if draw(st.integers(0, 3)) == 0 and len(case['spec']['layers']) >= 2:
         # nested containers: layer names such as '0' and '1.0' (one a dotted suffix of the other)
         case['spec'] = dict(case['spec'], nest_from=draw(st.integers(1, len(case['spec']['layers']) - 1)))
+    case['cast0'] = draw(st.sampled_from([False, False, False, True]))
     return case
 
 
@@ -68,11 +69,17 @@ class C09(Prop):
 
         W, T = case['W'], case['T']
         hp = case['hp']
-        labels = {'W': W, 'multi_rank': W > 1, 'method': case['method'], 'prediv': case['prediv'], 'T': T,
+        labels = {'W': W, 'multi_rank': W > 1, 'method': case['method'], 'prediv': case['prediv'], 'T': T, 'cast_after_construction': bool(case.get('cast0')),
                   'strategy': 'COMM' if case['k'] == W else 'MEM' if case['k'] == 1 else 'HYBRID'}
         train = lambda t: {'op': 'train', 'seed': case['data_seed'] + t}
 
         def run(program, observe=()):
+            if case.get('cast0'):
+                # the training script casts the model right after building the preconditioner (model.double()); a resuming script builds
+                # the model in the original dtype, constructs the preconditioner, loads the state and then casts, in the same order
+                orig = case.get('param_dtype', 'float32')
+                program = [{'op': 'cast', 'dtype': 'float32' if orig == 'float64' else 'float64'}] + \
+                    [dict(o, fresh_dtype=orig) if o['op'] == 'load' else o for o in program]
             if W == 1:
                 try:
                     return [kaisa.run_single(case, program, observe=observe)], None
